@@ -2,15 +2,13 @@ package router
 
 import "github.com/gammazero/nexus/v3/wamp"
 
+// pptOptionsToDetails copies the payload passthru options into the details.
+// The values come from a client, so items that are not strings are skipped
+// rather than assumed to be strings.
 func pptOptionsToDetails(options wamp.Dict, details wamp.Dict) {
-	details[wamp.OptPPTScheme] = options[wamp.OptPPTScheme].(string)
-	if val, ok := options[wamp.OptPPTSerializer]; ok {
-		details[wamp.OptPPTSerializer] = val.(string)
-	}
-	if val, ok := options[wamp.OptPPTCipher]; ok {
-		details[wamp.OptPPTCipher] = val.(string)
-	}
-	if val, ok := options[wamp.OptPPTKeyId]; ok {
-		details[wamp.OptPPTKeyId] = val.(string)
+	for _, opt := range []string{wamp.OptPPTScheme, wamp.OptPPTSerializer, wamp.OptPPTCipher, wamp.OptPPTKeyId} {
+		if val, ok := wamp.AsString(options[opt]); ok {
+			details[opt] = val
+		}
 	}
 }
